@@ -123,3 +123,113 @@ theorem vData_terminates (fixed : Bool) (tbl : Table) :
         | _ => simp
 
 end AikenVerif.Blueprint
+
+namespace AikenVerif.Blueprint
+
+theorem allOk_ne {α : Type} {o : Outcome} {f : α → Outcome} {xs : List α}
+    (h0 : o ≠ .ok) (h : ∀ x ∈ xs, f x ≠ o) : allOk f xs ≠ o := by
+  induction xs with
+  | nil => simpa [allOk] using h0.symm
+  | cons x xs ih =>
+    simp only [allOk]
+    split
+    · exact ih (fun y hy => h y (List.mem_cons_of_mem _ hy))
+    · exact h x List.mem_cons_self
+
+theorem zipOk_ne {σ α : Type} {o : Outcome} {f : σ → α → Outcome} {ss : List σ} {xs : List α}
+    (h0 : o ≠ .ok) (h : ∀ s x, f s x ≠ o) : zipOk f ss xs ≠ o := by
+  induction ss generalizing xs with
+  | nil => simpa [zipOk] using h0.symm
+  | cons s ss ih =>
+    cases xs with
+    | nil => simpa [zipOk] using h0.symm
+    | cons x xs =>
+      simp only [zipOk]
+      split
+      · exact ih
+      · exact h s x
+
+theorem ctorLoop_ne {σ : Type} {o m : Outcome} {f : σ → Data → Outcome} {tag : Nat}
+    {fields : List Data} {cs : List (Nat × List σ)} (h0 : o ≠ .ok) (h1 : o ≠ .mismatch)
+    (hm : m ≠ o) (h : ∀ s x, f s x ≠ o) : ctorLoop m f tag fields cs ≠ o := by
+  induction cs with
+  | nil => simpa [ctorLoop] using h1.symm
+  | cons c cs ih =>
+    obtain ⟨i, ss⟩ := c
+    simp only [ctorLoop]
+    split
+    · split
+      · exact hm
+      · exact zipOk_ne h0 h
+    · exact ih
+
+/-- with the repair, validation never kills the process -/
+theorem vData_no_panic (tbl : Table) :
+    ∀ (fuel : Nat) (ds : DSchema) (d : Data), vData true tbl fuel ds d ≠ .panic := by
+  intro fuel
+  induction fuel with
+  | zero => intro ds d; simp [vData]
+  | succ fuel ih =>
+    intro ds d
+    cases ds with
+    | integer => cases d <;> simp [vData]
+    | bytes => cases d <;> simp [vData]
+    | «opaque» => simp [vData]
+    | list item =>
+      cases d with
+      | list xs =>
+        simp only [vData]
+        split
+        · simp
+        · exact allOk_ne (by simp) (fun x _ => ih _ x)
+      | _ => simp [vData]
+    | tuple items =>
+      cases d with
+      | list xs =>
+        simp only [vData]
+        split
+        · simp
+        · split
+          · simp
+          · exact zipOk_ne (by simp) (fun s x => ih s x)
+      | _ => simp [vData]
+    | map k v =>
+      cases d with
+      | map es =>
+        simp only [vData]
+        split
+        · simp
+        · split
+          · simp
+          · refine allOk_ne (by simp) (fun e _ => ?_)
+            simp only [Outcome.andThen]
+            split
+            · exact ih _ _
+            · exact ih _ _
+      | _ => simp [vData]
+    | anyOf ctors =>
+      simp only [vData]
+      split
+      · simp
+      · cases d with
+        | constr tag fields =>
+          exact ctorLoop_ne (by simp) (by simp) (by simp) (fun s x => ih s x)
+        | _ => simp
+
+theorem vSchema_data_no_panic (tbl : Table) (fuel : Nat) (s : Schema) (d : Data) :
+    vSchema true tbl fuel s (.data d) ≠ .panic := by
+  cases fuel with
+  | zero => simp [vSchema]
+  | succ fuel =>
+    cases s with
+    | data ds => simp only [vSchema]; exact vData_no_panic tbl fuel ds d
+    | _ => simp [vSchema]
+
+theorem validate_no_panic (tbl : Table) (p : Decl Schema) (d : Data) :
+    validate true tbl p d ≠ .panic := by
+  simp only [validate]
+  split
+  · simp
+  · exact vSchema_data_no_panic _ _ _ _
+
+end AikenVerif.Blueprint
